@@ -3,13 +3,29 @@ F = "src/query/segment.rs"
 J = "src/query/jp_query.rs"
 
 UNITS = [
-    Unit(name="process_descendant", file=F, fn="process_descendant", order=60, status="assumed", serves=["C01", "C02", "C03"],
-         why_assumed="Verus rejects the recursion through a fn item (`.flat_map(process_descendant)`): cyclic dependency in its own call_ensures; "
-                     "checked by the bounded back end (descendant.preorder)",
+    Unit(name="process_descendant", file=F, fn="process_descendant", order=60, serves=["C01", "C02", "C03"],
+         attrs=["#[verifier::exec_allows_no_decreases_clause]"],
+         # rule E9: a fn item passed as a function value is eta-expanded (`f` -> `|x| f(x)`): Verus rejects a function whose
+         # contract mentions its own call_ensures; the closure carries an explicit contract instead
+         text_rewrites=[("E9", ".flat_map(process_descendant)", ".flat_map(|__e| process_descendant(__e))", 2)],
+         # rule E8: the collected children are bound so that "these are exactly children(node)" can be asserted
+         shapes=[("R2", 1, "{ let __v = vf_enumerate_map_collect($X, $F); proof { assert(nodes(Data::Refs(__v)) =~= children(nd(data))); } __v }"),
+                 ("R2v", 1, "{ let ghost __o = $X@; let __v = vf_into_map_collect($X, $F); proof { assert(nodes(Data::Refs(__v)) =~= children(nd(data))); } __v }")],
+         body_prefix="proof { lemma_desc_unfold(nd(data)); } broadcast use group_nds;",
          ensures=[
              ("preorder", "nodes(r) == desc_c_fn()(nd(data))"),
              ("shape", "is_nodes(r)"),
-         ]),
+         ],
+         closures={
+             1: Cl(expect="Pointer::idx(elem, data.path.clone(), i)", types=["(usize, &_)"], ret="(q: Pointer<T>)",
+                   ensures=[("ptr", "nd(q) == (Node { inner: __c1_0.1, path: idx_path(data.path@, __c1_0.0 as int) })")]),
+             2: Cl(expect="process_descendant(__e)", types=["Pointer<T>"], ret="(o: Data<T>)",
+                   ensures=[("rec", "is_nodes(o) && nodes(o) == desc_c_fn()(nd(__e))")]),
+             3: Cl(expect="Pointer::key(value, data.path.clone(), key)", types=["(&String, &_)"], ret="(q: Pointer<T>)",
+                   ensures=[("ptr", "nd(q) == (Node { inner: __c3_0.1, path: key_path(data.path@, __c3_0.0@) })")]),
+             4: Cl(expect="process_descendant(__e)", types=["Pointer<T>"], ret="(o: Data<T>)",
+                   ensures=[("rec", "is_nodes(o) && nodes(o) == desc_c_fn()(nd(__e))")]),
+         }),
     Unit(name="process_selectors", file=F, fn="process_selectors", order=60, status="assumed", serves=["C01", "C02"],
          why_assumed="map-reduce over State::reduce with a cloned input: the RFC order clause is a KNOWN FINDING on this tree "
                      "(pinned by the test index_unit_keys_test), so only the multiset clause can be assumed; both clauses are evaluated by the bounded back end",
